@@ -923,7 +923,11 @@ def common(chk):
     chk.trusted += ["extraction: ExtrOcamlBasic, ExtrOcamlNatInt (nat -> OCaml int for small indices); ascii/string stay the extracted inductive types",
                     "ocaml/driver_c18.ml (parsing/printing), harness/h_c18.cpp (reads IndexSize / IndicesToInfo directly, compiled with -fno-access-control; "
                     "catches SIGSEGV raised inside prepare() in a forked child), harness/h_c18_phys.cpp + harness/ed_common.h",
-                    "checks/C18.py: independent evaluation of the property on the implementation's output, computation of pi from the two index tables"]
+                    "checks/C18.py: independent evaluation of the property on the implementation's output, computation of pi from the two index tables",
+                    "translator/gen_index.py + translator/cstmt.py (statement splitter, expression parser with shifts / bit operations, shape recognition of "
+                    "IndexClassification::prepare, IndexInfo::IndexInfo / operator<, getIndex, getInfo, checkIndex): the tie between coq/gen/Gen_Index*.v and "
+                    "src/pomerol/IndexClassification.cpp (Properties_C18_source.v); a function it does not recognise falls back to its snapshot and is "
+                    "then tied by the correspondence runs alone"]
     chk.assume += ["boost::hash<std::string> is injective on the labels that occur (checked for every case by the harness' hash dump)",
                    "std::map<std::string,...> iterates in byte-lexicographic key order (checked: the sites= field of every case)",
                    "orbital and spin counts < 65536 (unsigned short narrowing is outside the model)",
@@ -939,7 +943,7 @@ def common(chk):
 
 def run(chk):
     quick = chk.tier == "quick"
-    ok, log = chk.prove(["extract/Extract_C18.vo"])
+    ok, log = chk.prove(["extract/Extract_C18.vo"], extra_props=["Properties_C18_source.v"])
     common(chk)
     runner = IndexRunner(chk)
     plans = phys_plans(chk, 150 if quick else 1200, 5)
@@ -979,7 +983,7 @@ def replay(chk, path):
     r = json.load(open(path))
     rp = r.get("replay", {})
     print("replaying %s: %s" % (r.get("key"), r.get("what")))
-    chk.prove(["extract/Extract_C18.vo"])
+    chk.prove(["extract/Extract_C18.vo"], extra_props=["Properties_C18_source.v"])
     common(chk)
     if isinstance(rp, dict) and rp.get("kind") == "index":
         runner = IndexRunner(chk)
